@@ -7,6 +7,7 @@ use std::panic::{catch_unwind, AssertUnwindSafe};
 mod coord;
 mod crash;
 mod hdr;
+mod mt;
 mod pexpr;
 mod pgr;
 mod sql;
@@ -57,6 +58,7 @@ fn main() {
                 let r = catch_unwind(AssertUnwindSafe(|| match mode_s.as_str() {
                     "sql" => sql::run_line(&line_c),
                     "crash" => crash::run_line(&line_c),
+                    "mt" => mt::run_line(&line_c),
                     "pexpr" => pexpr::run_line(&line_c),
                     "wire" => wire::run(&toks),
                     "val" => val::run(&toks),
